@@ -261,7 +261,12 @@ func SortedKeys(h http.Header) []string {
 // ConnectSplit is Connect with the ClientHello message spread over two TLS records (cut after
 // `cut` message bytes): crypto/tls reassembles it, the proxy's capture holds only the first record.
 func ConnectSplit(p *Proxy, alpn []string, cut int) (*ClientConn, error) {
-	raw, _, err := p.Ln.Dial(DialOpts{})
+	return ConnectSplitFrom(p, alpn, cut, nil)
+}
+
+// ConnectSplitFrom is ConnectSplit with a chosen peer address.
+func ConnectSplitFrom(p *Proxy, alpn []string, cut int, remote *net.TCPAddr) (*ClientConn, error) {
+	raw, _, err := p.Ln.Dial(DialOpts{Remote: remote})
 	if err != nil {
 		return nil, err
 	}
